@@ -194,10 +194,13 @@ func genOps(r *Rng, rows, cols int, allowT bool) []Op {
 }
 
 func genRoundTrip(r *Rng) Recipe {
-	switch r.Pick([]int{2, 4, 2, 4, 6, 4}) {
+	switch r.Pick([]int{2, 4, 2, 4, 6, 4, 1}) {
 	case 0:
 		et := pickType(r, false, true)
 		return Recipe{Kind: "plain", Type: et.Name, Els: []Elem{{P: genEl(r, et, true)}}}
+	case 6: // constant scalars (writable since da67985): every number type, non-finite values included
+		et := pickType(r, false, true)
+		return Recipe{Kind: "const", Type: et.Name, Els: []Elem{{P: genEl(r, et, true)}}}
 	case 1:
 		et := pickType(r, true, false)
 		return Recipe{Kind: "real", Type: et.Name, Els: []Elem{genElem(r, et, r.Intn(20) == 0)}}
@@ -506,6 +509,22 @@ func genMalformed(r *Rng) Recipe {
 			}
 		case 6:
 			rows, cols, mut = 1000, 1000, "big-dims"
+		case 7:
+			// Rows*Cols wraps around in the reader's check.  Plain element types only: a Real matrix would
+			// allocate max(Rows, Cols) >= 2^32 scratch scalars in initTmp (out of memory, not a panic)
+			if !et.Real {
+				switch r.Intn(4) {
+				case 0:
+					rows, cols, nvals = 1<<32, 1<<32, 0
+				case 1:
+					rows, cols, nvals = 1<<62, 4, 0
+				case 2:
+					rows, cols, nvals = 6148914691236517206, 3, 2 // 3 * 0x5555555555555556 = 2^64 + 2
+				case 3:
+					rows, cols, nvals = 3037000500, 3037000500, 0 // wraps to a negative number
+				}
+				mut = "dim-overflow"
+			}
 		}
 		xs := make([]string, nvals)
 		for i := range xs {
